@@ -28,7 +28,14 @@ def run(ctx):
     # "the same input always yields the same layout": several graphs laid out on ONE DependencyChartLayout instance
     # must each equal the layout a fresh instance computes (graphs sharing node ids, in both orders)
     hist_bad = []
-    if ctx.prop in ("C17", "C18"):
+    nonterminating = [i for i, r in enumerate(results) if isinstance(r, dict) and "Timeout" in str(r.get("raise"))]
+    if ctx.prop in ("C17", "C18") and nonterminating:
+        # the layout stopped terminating: the further families (histories, geometries, processes) would only wait
+        ctx.notes.append("%d cases did not terminate; history / geometry / process families skipped" % len(nonterminating))
+        if not spec_bad:
+            for i in nonterminating[:2]:
+                ctx.violation({"what": "the layout does not terminate (no result within 10 s)", "case": cases[i], "implementation": results[i]})
+    if ctx.prop in ("C17", "C18") and not nonterminating:
         import subprocess, random as _random
         small = [c for c in cases if 2 <= len(c["nodes"]) <= 12]
         sample = small[:200]
@@ -71,7 +78,7 @@ for i in range(0, len(cases) - 1, 2):
             bad.append({"first": x, "second": y, "raised": repr(e)})
 print(json.dumps(bad[:5]))
 ''' % ctx.repo_copy
-        r = subprocess.run([common.PY, "-W", "ignore", "-c", code], input=json.dumps(sample), capture_output=True, text=True, env=ctx.impl_env())
+        r = subprocess.run([common.PY, "-W", "ignore", "-c", code], input=json.dumps(sample), capture_output=True, text=True, env=ctx.impl_env(), timeout=900)
         if r.returncode == 0:
             hist_bad = json.loads(r.stdout)
         else:
